@@ -14,6 +14,8 @@ open Jomini.Props.C01
 #print axioms C01_layout_independent_flat_partial
 #print axioms C01_faithful_nested_partial
 #print axioms C01_layout_independent_nested_partial
+#print axioms C01_faithful_tree_partial
+#print axioms C01_layout_independent_tree_partial
 #print axioms C01_C06_text_checker_sound
 #print axioms C01_C06_text_inv
 #print axioms C01_C19_quote_not_extended
